@@ -91,3 +91,146 @@ def serve_one(ep, backend, handlers, result):
         result["error"] = repr(e)
     finally:
         ep.close()
+
+
+# ----------------------------------------------------------- smart HTTP
+class _HttpResp:
+    def __init__(self, status, headers):
+        self.status = status
+        self.content_type = headers.get("content-type")
+        self.redirect_location = None
+
+    def close(self):
+        pass
+
+
+class HttpSim:
+    """In-process smart-HTTP round trips against dulwich.web's WSGI
+    application.  One request = one call of the application, executed in the
+    calling actor (the server is stateless between requests), so every file
+    access of the request is a yield point at which other actors -- a second
+    client, or something changing the served repository -- interleave.
+
+    faults: [{"req": n-th request (0-based), "kind": "reset-before" |
+    "reset-after" | "truncate", "at": byte offset of the response body}]
+    """
+
+    def __init__(self, sim, backend, handlers, faults=(), chunk_max=None,
+                 name="http", rbuf=8192):
+        from dulwich.web import make_wsgi_chain
+        self.sim = sim
+        self.app = make_wsgi_chain(backend, handlers=handlers)
+        self.faults = {f["req"]: f for f in faults}
+        self.nreq = 0
+        self.chunk_max = chunk_max
+        self.rbuf = rbuf
+        self.name = name
+        self.rng = sim.rng("http-" + name)
+        self.server_errors = []
+        self.log = []
+
+    def request(self, url, headers, data):
+        import io as _io
+        from urllib.parse import urlparse
+        sim = self.sim
+        n = self.nreq
+        self.nreq += 1
+        f = self.faults.get(n)
+        u = urlparse(url)
+        if data is not None and not isinstance(data, bytes):
+            data = b"".join(data)
+        sim.yield_point("http-send")
+        sim.log(sim.current.name if sim.current else "?", "http-request",
+                None, ("POST" if data is not None else "GET",
+                       u.path.rsplit("/", 2)[-1], len(data or b"")))
+        if f and f["kind"] == "reset-before":
+            sim.stat("fault:http-reset-before-request")
+            raise ConnectionResetError("simulated: connection reset")
+        environ = {
+            "REQUEST_METHOD": "POST" if data is not None else "GET",
+            "SCRIPT_NAME": "", "PATH_INFO": u.path,
+            "QUERY_STRING": u.query or "",
+            "SERVER_NAME": "sim", "SERVER_PORT": "80",
+            "SERVER_PROTOCOL": "HTTP/1.1",
+            "wsgi.version": (1, 0), "wsgi.url_scheme": "http",
+            "wsgi.input": _io.BytesIO(data or b""),
+            "wsgi.errors": _io.StringIO(),
+            "wsgi.multithread": False, "wsgi.multiprocess": True,
+            "wsgi.run_once": False,
+        }
+        if data is not None:
+            environ["CONTENT_LENGTH"] = str(len(data))
+        for k, v in (headers or {}).items():
+            kk = k.upper().replace("-", "_")
+            if kk == "CONTENT_TYPE":
+                environ["CONTENT_TYPE"] = v
+            elif kk != "CONTENT_LENGTH":
+                environ["HTTP_" + kk] = v
+        out = []
+        st = {}
+
+        def start_response(status, hdrs, exc_info=None):
+            st["status"] = int(status.split(" ", 1)[0])
+            st["headers"] = {k.lower(): v for k, v in hdrs}
+
+            def write(b):
+                out.append(bytes(b))
+                return len(b)
+            return write
+        try:
+            for chunk in self.app(environ, start_response):
+                if chunk:
+                    out.append(bytes(chunk))
+        except Exception as e:  # noqa: BLE001 - the server side failed
+            # a real server aborts the response: the client sees whatever was
+            # sent so far, then the connection closes
+            self.server_errors.append(type(e).__name__ + ": " + str(e)[:200])
+            sim.stat("probe:http_server_exception")
+            st.setdefault("status", 500)
+            st.setdefault("headers", {})
+            st["aborted"] = True
+        body = b"".join(out)
+        sim.yield_point("http-recv")
+        if f and f["kind"] == "reset-after":
+            sim.stat("fault:http-reset-after-request")
+            raise ConnectionResetError("simulated: connection reset")
+        truncated = st.get("aborted", False)
+        if f and f["kind"] == "truncate" and f["at"] < len(body):
+            body = body[:f["at"]]
+            truncated = True
+            sim.stat("fault:http-response-truncated")
+        from .simnet import ChunkedStream
+        cuts = []
+        if self.chunk_max and body:
+            pos = 0
+            while pos < len(body) and len(cuts) < 4096:
+                k = self.rng.randint(1, self.chunk_max)
+                cuts.append(k)
+                pos += k
+        stream = ChunkedStream(body, cuts, end="reset" if truncated else "eof")
+        resp = _HttpResp(st.get("status", 500), st.get("headers", {}))
+        # an HTTP client's read(n) blocks until n bytes or the end of the body
+        return resp, _io.BufferedReader(stream, buffer_size=self.rbuf)
+
+
+def make_http_client(sim, http, **kw):
+    from dulwich.client import AbstractHttpGitClient
+    from dulwich.errors import GitProtocolError, NotGitRepository
+
+    class SimHttpClient(AbstractHttpGitClient):
+        def _http_request(self, url, headers=None, data=None,
+                          raise_for_status=True):
+            resp, stream = http.request(url, headers, data)
+            if resp.status == 404:
+                raise NotGitRepository()
+            if raise_for_status and resp.status != 200:
+                raise GitProtocolError(
+                    f"unexpected http resp {resp.status} for {url}")
+            return resp, stream.read
+
+        def _post_buffer_size(self, url):
+            return 1 << 30
+
+    ckw = {k: v for k, v in kw.items()
+           if k in ("thin_packs", "include_tags", "quiet")}
+    return SimHttpClient("http://sim/", **ckw)
